@@ -85,12 +85,20 @@ package input
 //@   requires l != nil && l.Handler != nil
 //@   modifies calls(l.Handler.Handle)
 //@   ensures[datagram_handled_whole_once; C12] exists r *bytes.Reader, tg int :: r != nil && r.rcontent == data[..] && calls(l.Handler.Handle) == old(calls(l.Handler.Handle)) ++ eP(eP(eI(tg), eI(r)), eNil)
+//@ // the function-typed field the UDP loop calls through: the body of the function stored there (handleData) is verified
+//@ // against this contract
 //@ func (l *Listener) HandleData(l2 *Listener, data []byte, src net.Addr)
+//@   property C12
 //@   requires l2 != nil && l2.Handler != nil
 //@   modifies calls(l2.Handler.Handle)
+//@   ensures[datagram_handled_whole_once; C12] exists r *bytes.Reader, tg int :: r != nil && r.rcontent == data[..] && calls(l2.Handler.Handle) == old(calls(l2.Handler.Handle)) ++ eP(eP(eI(tg), eI(r)), eNil)
+//@ // the UDP loop: each datagram is handled -- completely, by the call above -- before the next one is read into the
+//@ // same buffer (received: number of datagrams the socket delivered)
 //@ func (l *Listener) consumeUdp()
 //@   property C12,C14
 //@   requires l.udpConn != nil && l.Handler != nil && l.shutdown != nil
 //@   modifies *
+//@   ensures[every_datagram_handled; C12] llen(calls(l.Handler.Handle)) - l.udpConn.received == old(llen(calls(l.Handler.Handle))) - old(l.udpConn.received)
 //@   loop 1:
-//@     invariant[wf] l.udpConn != nil && l.Handler != nil && l.shutdown != nil && len(buffer) == 65535
+//@     invariant[wf] l.udpConn != nil && l.Handler != nil && l.shutdown != nil && len(buffer) == 65535 && l.udpConn == old(l.udpConn) && l.Handler == old(l.Handler)
+//@     invariant[handled_before_the_next_read; C12] llen(calls(l.Handler.Handle)) - l.udpConn.received == old(llen(calls(l.Handler.Handle))) - old(l.udpConn.received)
